@@ -193,6 +193,7 @@ class BatchSage:
             n_inner_samples = self.n_inner_samples
         sage_values = {feature: 0. for feature in self.feature_names}
         n_data = len(x_data)
+        n_background = len(x_data)
         all_predictions = self._model_function(x_data)
         marginal_prediction = _get_mean_model_output(all_predictions)
         for n, (x_i, y_i) in tqdm(enumerate(zip(x_data, y_data), start=1), total=n_data,
@@ -205,7 +206,7 @@ class BatchSage:
                 x_s[feature] = x_i[feature]
                 predictions = []
                 for _ in range(1, n_inner_samples + 1):
-                    x_marginal = x_data[random.randint(0, n_data - 1)]
+                    x_marginal = x_data[random.randint(0, n_background - 1)]
                     x_marginal = {**x_marginal, **x_s}
                     predictions.append(self._model_function(x_marginal))
                 y = _get_mean_model_output(predictions)
